@@ -641,6 +641,10 @@ def pat_timers(rnd, sid):
                 steps += [{"op": "update", "ts": d["s"]}]
         if other is not None and r.random() < 0.6:
             steps.append({"op": "ping", "s": other["s"]} if other["kind"] == "ping" else {"op": "wr", "s": other["s"], "c": 0})
+        if r.random() < 0.3:
+            # a wake-up is pending when a wait bounded by a timer deadline starts: it returns at once, nothing fires early
+            steps.append({"op": "wakeup"})
+            steps.append({"op": "dispatch", "timeout": 4 * 2000})
         tick += r.choice([1, 1, 2])
         steps.append({"op": "advance", "k": tick})
         steps.append({"op": "dispatch"})
@@ -673,6 +677,12 @@ def pat_timers(rnd, sid):
             p = {"ops": ops}
             if d["kind"] == "timer":
                 p["ret"] = r.choice(["drop", "drop", {"to": tick + k + r.choice([0, 1, 2])}, {"dur": r.choice([0, 1])}])
+                # a timer's callback re-arms / cancels ANOTHER timer whose expiry may already be in this batch
+                if n > 1 and r.random() < 0.35:
+                    v = r.choice([x for x in srcs[:n] if x["s"] != d["s"]])
+                    ops += r.choice([[{"op": "set_deadline", "s": v["s"], "d": tick + 30}, {"op": "update", "ts": v["s"]}],
+                                     [{"op": "disable", "ts": v["s"]}, {"op": "enable", "ts": v["s"]}],
+                                     [{"op": "update", "ts": v["s"]}]])
             else:
                 if d["kind"] == "comp":
                     ops.append({"op": "rd", "s": d["s"], "c": 0})
@@ -896,6 +906,36 @@ def pat_exec(rnd, sid):
     return scn
 
 
+def pat_dupfd(rnd, sid):
+    """An fd changes hands: source A (kept by its Dispatcher) is removed, source B is inserted on the SAME fd, and only
+    then A is released (Dispatcher dropped, or into_source_inner + drop).  A's late release must not touch B's
+    registration; B keeps receiving events and the fd cannot be inserted a third time."""
+    r = rnd
+    srcs = [{"s": 1, "kind": "comp", "held": 1, "children": [{"interest": "r", "mode": r.choice(["level", "level", "edge"])}]},
+            {"s": 2, "kind": "comp", "dupof": [1, 0], "interest": "r", "mode": r.choice(["level", "level", "oneshot"])},
+            {"s": 3, "kind": "comp", "dupof": [1, 0], "interest": "r", "mode": "level"}]
+    if r.random() < 0.5:
+        srcs[1]["held"] = 1
+    steps = [{"op": "insert", "s": 1}]
+    if r.random() < 0.6:
+        steps += [{"op": "wr", "s": 1, "c": 0}, {"op": "dispatch"}]
+    steps.append({"op": "remove", "ts": 1})
+    order = r.choice(["late", "late", "early"])
+    release = r.choice([[{"op": "drop_held", "s": 1}], [{"op": "into_inner", "s": 1}, {"op": "drop_pending", "s": 1}]])
+    if order == "early":
+        steps += release
+    steps.append({"op": "insert", "s": 2})
+    if r.random() < 0.5:
+        steps += [{"op": "wr", "s": 1, "c": 0}, {"op": "dispatch"}]
+    if order == "late":
+        steps += release
+    steps += [{"op": "wr", "s": 1, "c": 0}, {"op": "dispatch"}]
+    steps.append({"op": "insert", "s": 3})          # must fail: the fd is registered by B
+    steps += [{"op": "wr", "s": 1, "c": 0}, {"op": "dispatch"}, {"op": "dispatch"}]
+    progs = {"s%d" % k: [{"ops": [{"op": "rd", "s": 1, "c": 0}], "ret": "continue"} for _ in range(6)] for k in (1, 2, 3)}
+    return {"id": sid, "tick_us": 2000, "sources": srcs, "progs": progs, "steps": steps}
+
+
 def gen(seed, n, classes=None):
     classes = classes or CLASSES
     out = []
@@ -909,6 +949,8 @@ def gen(seed, n, classes=None):
             out.append(pat_replace(rnd, "p%d_%s_%d" % (seed, cls, i), cls))
         elif 0.4 <= x < 0.55 and cls in ("post", "mix", "ready", "fds", "disable", "faults", "timers"):
             out.append(pat_defer(rnd, "d%d_%s_%d" % (seed, cls, i)))
+        elif 0.8 <= x < 0.9 and cls in ("fds", "reuse"):
+            out.append(pat_dupfd(rnd, "u%d_%s_%d" % (seed, cls, i)))
         elif cls == "execs":
             out.append(pat_exec(rnd, "e%d_%s_%d" % (seed, cls, i)))
         elif 0.55 <= x < 0.8 and cls == "faults":
